@@ -322,7 +322,7 @@ pub(crate) fn add_discdist_custom<W, R, T>(
             if len == 0 {
                 return xerr(ManagedXError::new("sequence is empty", rt)?);
             }
-            rt.can_allocate(len * size_of::<usize>())?;
+            rt.can_allocate(len.saturating_mul(size_of::<usize>()))?;
             let arr = xraise!(s0.diter(ns, rt.clone()).unwrap().collect::<XResult<Vec<_>,_, _, _>>()?);
             let mut items = arr.iter().map(|item| {
                 let tup = to_primitive!(item, StructInstance);
